@@ -248,8 +248,11 @@ def check(prop, tier, seed):
         "assumptions": getattr(mod, "ASSUMPTIONS", []),
         "wall_s": round(time.time() - t_start, 2), "violations": len(violations),
     }
-    os.makedirs(os.path.join(HERE, "evidence"), exist_ok=True)
-    json.dump(ev, open(os.path.join(HERE, "evidence", prop + ".json"), "w"), indent=1)
+    evdir = os.environ.get("VERIF_EVIDENCE_DIR") or os.path.join(HERE, "evidence")      # (dev runs against seeded changes write elsewhere)
+    if only and not os.environ.get("VERIF_EVIDENCE_DIR"):
+        evdir = os.path.join(WORK, "partial-evidence")                                  # a filtered run (VERIF_ONLY) is not evidence
+    os.makedirs(evdir, exist_ok=True)
+    json.dump(ev, open(os.path.join(evdir, prop + ".json"), "w"), indent=1)
 
     print("%s %s: obligations=%d discharged=%d inconclusive=%d refuted=%d paths=%d validated=%d wall=%.0fs" % (
         prop, tier, n_ob, disc, len(inconc), len(refuted), cov["states"], validated, time.time() - t_start))
